@@ -187,9 +187,39 @@ structure Cfg where
   replayIsComplete : Bool
   atomicWrite : Bool
   loadIsPerEntry : Bool        -- wave 3: `load_state` treats every listed file on its own (see `loadEntries`)
+  replayOrderPreserved : Bool  -- wave 4: the restored log lists the steps in execution order (see `readLog`)
 deriving DecidableEq, Repr
 
-def Cfg.good (c : Cfg) : Bool := c.replayIsComplete && c.loadIsPerEntry
+/-- the two facts the restore of ONE instance relies on -/
+def Cfg.restoreOK (c : Cfg) : Bool := c.replayIsComplete && c.replayOrderPreserved
+
+def Cfg.good (c : Cfg) : Bool := c.replayIsComplete && c.loadIsPerEntry && c.replayOrderPreserved
+
+/-! wave 4: `_replay_session` replays `settings_log` in dictionary order, so it relies on the adapter round trip
+(write + read) keeping the order of the log: decode ∘ encode preserves the order of the steps.  A writer that
+sorts the keys of JSON objects (`sort_keys`) orders the steps by the TEXT of their time label — "10.0" before
+"9.0", "-1.0" before "-2.0" — and the restored session replays a later step before an earlier one. -/
+
+/-- the text of a time label (sign, then decimal digits) as character codes -/
+def keyText (t : Time) : List Nat :=
+  (if t < 0 then [45] else []) ++ (Nat.toDigits 10 t.natAbs).map Char.toNat
+
+def textLe : List Nat → List Nat → Bool
+  | [], _ => true
+  | _ :: _, [] => false
+  | a :: as, b :: bs => a < b || (a == b && textLe as bs)
+
+def insertByText (e : Time × Settings) : List (Time × Settings) → List (Time × Settings)
+  | [] => [e]
+  | f :: r => if textLe (keyText e.1) (keyText f.1) then e :: f :: r else f :: insertByText e r
+
+/-- the log as a key-sorting writer leaves it -/
+def sortByText : List (Time × Settings) → List (Time × Settings)
+  | [] => []
+  | e :: r => insertByText e (sortByText r)
+
+def readLog (c : Cfg) (log : List (Time × Settings)) : List (Time × Settings) :=
+  if c.replayOrderPreserved then log else sortByText log
 
 /-- the logged steps up to and including the last one that carried settings -/
 def uptoLastSettings : List (Time × Settings) → List (Time × Settings)
@@ -200,8 +230,8 @@ def uptoLastSettings : List (Time × Settings) → List (Time × Settings)
     | r => e :: r
 
 def restoreC (c : Cfg) (d : Dyn σ ρ) (p : Persist) : Inst σ :=
-  { spec := p.spec, step := p.step, log := p.log,
-    sim := replaySim d p.spec (if c.replayIsComplete then p.log else uptoLastSettings p.log) }
+  { spec := p.spec, step := p.step, log := readLog c p.log,
+    sim := replaySim d p.spec (if c.replayIsComplete then readLog c p.log else uptoLastSettings (readLog c p.log)) }
 
 def effC (c : Cfg) (d : Dyn σ ρ) (s : Server σ) (id : Nat) : Option (Inst σ) :=
   match s.live id with
